@@ -2,6 +2,7 @@
 # applies every seeded change to /repo in turn, runs the check of the property it breaks (quick tier),
 # reverts, and writes seeded/RESULTS.md. /repo must be clean. Never leaves a patch applied.
 cd "$(dirname "$0")/.." || exit 2
+export VERIF_EVIDENCE_DIR=/tmp/opfverif-mutant-evidence
 out=seeded/RESULTS.md
 {
 echo "# Seeded changes vs checks (quick tier, seed ${VERIF_SEED:-default})"
